@@ -122,6 +122,24 @@ func c06Decision(which int) {
 		u.ExcludedPubSubChannels = symRules("ech", 1)
 	}
 	u.Normalise()
+	// ACL SETUSER on an existing user appends to its rule lists without normalising them again: a rule
+	// that is granted a second time is then listed twice (the decision must not depend on that)
+	if which == 0 && vr.Choose("regrant", 2) == 1 {
+		for _, c := range u.IncludedCategories {
+			if c != "*" {
+				u.IncludedCategories = append(u.IncludedCategories, c)
+				break
+			}
+		}
+	}
+	if which == 1 && vr.Choose("regrant", 2) == 1 {
+		for _, c := range u.IncludedCommands {
+			if c != "*" {
+				u.IncludedCommands = append(u.IncludedCommands, c)
+				break
+			}
+		}
+	}
 	a.Users = append(a.Users, u)
 	a.CompileGlobs()
 	conn := newConn()
